@@ -21,6 +21,13 @@ func (app *App) VerifProposalHandler() *ProposalHandler {
 	return NewProposalHandler(app.Logger(), app.StakingKeeper, app.AppCodec(), app.OracleKeeper, app.BridgeKeeper, app.StakingKeeper)
 }
 
+// VerifHandlerPair returns one proposal handler and the PreBlocker closure bound to that same instance, as New() wires
+// them: whatever the handler keeps in memory between ProcessProposal and PreBlocker is shared, like on a real node.
+func (app *App) VerifHandlerPair() (*ProposalHandler, func(sdk.Context, *abci.RequestFinalizeBlock) (*sdk.ResponsePreBlock, error)) {
+	ph := NewProposalHandler(app.Logger(), app.StakingKeeper, app.AppCodec(), app.OracleKeeper, app.BridgeKeeper, app.StakingKeeper)
+	return ph, app.preBlocker(ph)
+}
+
 // VerifVoteExtHandler returns a vote-extension handler wired like the one in New().
 func (app *App) VerifVoteExtHandler() *VoteExtHandler {
 	return NewVoteExtHandler(app.Logger(), app.AppCodec(), app.OracleKeeper, app.BridgeKeeper)
